@@ -683,6 +683,11 @@ pub trait World {
     fn quiescent(&mut self, sim: &SimInfo) -> Option<Violation>;
     /// Called after a clock jump.
     fn after_advance(&mut self, _now_ms: u64) {}
+    /// Virtual milliseconds that pass whenever an actor reaches an operation boundary
+    /// (0 = time only moves when the controller decides so).
+    fn tick_at_boundary(&self) -> u64 {
+        0
+    }
     /// New worker actors to start (simulated blocking pool); called after every step.
     fn spawn_pending(&mut self) -> Vec<Box<dyn FnOnce()>> {
         Vec::new()
@@ -714,6 +719,8 @@ pub enum RunEnd {
     StepCap,
     /// replay mode only: the decision list did not fit the run
     Diverged(String),
+    /// nothing can move although threads are blocked on a lock of the code under test
+    Deadlock(String),
 }
 
 #[derive(Default, Clone, Debug)]
@@ -1081,7 +1088,14 @@ impl Sim {
             }
             let d = match self.next_decision(world, &runnable, &gates) {
                 Ok(Some(d)) => d,
-                Ok(None) => return RunEnd::Finished,
+                Ok(None) => {
+                    // nothing can be decided any more: threads still spinning on a lock will
+                    // never get it (the holder is one of them, or gone)
+                    if let Some(dl) = self.lock_blocked() {
+                        return RunEnd::Deadlock(dl);
+                    }
+                    return RunEnd::Finished;
+                }
                 Err(e) => return RunEnd::Diverged(e),
             };
             if let Some(v) = self.execute(world, d, !runnable.is_empty()) {
@@ -1155,6 +1169,13 @@ impl Sim {
         if let Decision::Run(a) = d {
             trace!("sched: A{} -> {:?}", a, last_yield);
         }
+        if let (Decision::Run(_), Some(Yield::Boundary)) = (d, last_yield) {
+            let ms = world.tick_at_boundary();
+            if ms > 0 {
+                self.clock.advance_by(ms);
+                world.after_advance(self.clock.now_ms);
+            }
+        }
         // interleaving fingerprint: who moved and where it stopped
         match d {
             Decision::Run(a) | Decision::Cancel(a) | Decision::Spurious(a) => {
@@ -1222,6 +1243,24 @@ impl Sim {
             }
         }
         Err(None)
+    }
+
+    /// Actors that wait for a lock although nobody can release it any more.
+    pub fn lock_blocked(&self) -> Option<String> {
+        let v: Vec<String> = self
+            .actors
+            .iter()
+            .enumerate()
+            .filter_map(|(i, a)| match (a.state, a.last_yield) {
+                (AState::LockBusy(_), Some(Yield::LockBusy(site))) => Some(format!("thread {i} at {site}")),
+                _ => None,
+            })
+            .collect();
+        if v.is_empty() {
+            None
+        } else {
+            Some(v.join(", "))
+        }
     }
 
     /// Where an actor currently stands: site index, or a code for pending / boundary / other.
